@@ -8,7 +8,7 @@ from fractions import Fraction
 
 from .. import core
 from .. import translate_vocab as TV
-from .c10 import enc, dec, parse_model_rat, parse_model_comp, cmp_comp, show_impl_comp, guarded, Hang, close
+from .c10 import enc, dec, parse_model_rat, parse_model_comp, cmp_comp, show_impl_comp, guarded, Hang, close, to_float
 
 PID = 'C15'
 DRV = 'drv_c15'
@@ -71,8 +71,11 @@ def cmp_float(im, m):
         if not m.startswith('OK '):
             return False
         a = float(im[3:])
-        b = float(parse_model_rat(m[3:]))
+        b = to_float(parse_model_rat(m[3:]))
         return abs(a - b) <= 1e-7 + 1e-9 * max(abs(a), abs(b))
+    if im == 'ERR:SPECIAL' and m.startswith('OK '):
+        # a number beyond the range of a double: inf / nan in Python, exact in the model (outside the model)
+        return abs(parse_model_rat(m[3:])) > Fraction(10) ** 300
     return im == m
 
 
@@ -129,6 +132,8 @@ def run(chk):
             v = rng.choice([0.0, 1.0, -1.0, 0.5, 0.0001, -0.0001, 2.5, 100.0, 0.1, 0.3])
         if v == 0 and not zero_ok:
             return gen_count(zero_ok)
+        if v == 0:
+            v = abs(v)  # no negative zero: a rational count cannot carry the sign of -0.0 (outside the model)
         return v
 
     def gen_key():
@@ -149,7 +154,7 @@ def run(chk):
             d[gen_key()] = gen_count()
         return d
 
-    n_w = 1500 if tier == 'quick' else 60000
+    n_w = 3000 if tier == 'quick' else 40000
     comps = [gen_comp() for _ in range(n_w)]
     # every table key at least once
     allk = iso_keys + particles
@@ -243,7 +248,8 @@ def run(chk):
         if r < 0.6:
             return rng.randint(-5, 20)
         if r < 0.9:
-            return round(rng.uniform(-5, 20), rng.randint(1, 4))
+            v = round(rng.uniform(-5, 20), rng.randint(1, 4))
+            return abs(v) if v == 0 else v  # no negative zero (outside the model)
         return rng.choice([1, 1.0, 0, 0.0, -1, 0.5])
 
     def gen_glycan(maxk=5):
@@ -253,7 +259,7 @@ def run(chk):
             g[nm] = gen_gcount()
         return g
 
-    n_g = 1500 if tier == 'quick' else 60000
+    n_g = 3000 if tier == 'quick' else 40000
     glys = [gen_glycan() for _ in range(n_g)] + [{n: gen_gcount()} for n in mono_names + mono_syns] + [{}]
     gw = [(g, sep) for g in glys for sep in SEPS]
     chk.correspond('write_glycan_formula', DRV, gw, lambda c: f'gwrite\t{comp_wire(c[0])}\t{enc(c[1])}',
@@ -435,6 +441,10 @@ def run(chk):
 
     chk.oracle('glycan_roundtrip_linear', glys if big else glys[::2], o_glycan, nontrivial_fn=lambda g: len(g) >= 2, key_fn=repr)
     lap('oracle')
+    if tier == 'thorough':
+        chk.leanchecker(['PeptVerif.Props.C15', 'PeptVerif.Props.C15Glycan', 'PeptVerif.Lemmas.NumSpec', 'PeptVerif.Lemmas.NumText',
+                         'PeptVerif.Lemmas.FormulaRT', 'PeptVerif.Lemmas.GlycanRT', 'PeptVerif.Model.Formula'])
+        lap('leanchecker')
     return chk.finish(classify)
 
 
